@@ -183,7 +183,7 @@ Definition index_of (v : value) : outcome index :=
   end.
 
 Definition element (l : list value) (i : Z) : value :=
-  if (i <? 0)%Z then VUndef else nth (Z.to_nat i) l VUndef.
+  if (0 <=? i)%Z && (i <? Z.of_nat (length l))%Z then nth (Z.to_nat i) l VUndef else VUndef.
 Definition entry (m : list (bstr * value)) (k : bstr) : value :=
   match assoc_s k m with Some v => v | None => VUndef end.
 
@@ -227,14 +227,14 @@ Definition fn_arities (f : fn) : list nat :=
 
 Inductive fresult := RValue (v : value) | RList (l : list value) | RMap (m : list (bstr * value)).
 
-(* smaller / larger of two floats; of two zeros the negative / positive one; NaN and infinities are outside the model *)
+(* smaller / larger of two finite floats (equal ones: the first); NaN and infinities are outside the model *)
 Definition fl_finite (x : fl) : bool := match x with FZero _ | FFin _ _ => true | _ => false end.
 Definition fl_smaller (x y : fl) : option fl :=
   if fl_finite x && fl_finite y then
     match fl_cmp x y with
     | Some Lt => Some x
     | Some Gt => Some y
-    | _ => Some (if fl_isneg x then x else y)
+    | _ => Some (if fl_is_zero x && fl_isneg y then y else x)          (* of +0 and -0: -0 *)
     end
   else None.
 Definition fl_larger (x y : fl) : option fl :=
@@ -242,7 +242,7 @@ Definition fl_larger (x y : fl) : option fl :=
     match fl_cmp x y with
     | Some Lt => Some y
     | Some Gt => Some x
-    | _ => Some (if fl_isneg x then y else x)
+    | _ => Some (if fl_is_zero x && negb (fl_isneg y) then y else x)   (* of -0 and +0: +0 *)
     end
   else None.
 
